@@ -186,7 +186,7 @@ func errDiscSite(p *Program, obs *obSet, fn *ssa.Function, ci ssa.CallInstructio
 				}
 				return v.St, true
 			}
-			if failed && isErrorLog(c.Common()) && mentions(c, ev) {
+			if failed && isErrorLog(c.Common()) && storageMentions(c, ev) {
 				if shutdownFn {
 					handled["error-level log in the shutdown function"]++
 					return v.St, true
@@ -449,7 +449,7 @@ func isErrorLog(c *ssa.CallCommon) bool {
 }
 
 // mentions reports whether the call receives ev (also inside a variadic slice).
-func mentions(c *ssa.Call, ev ssa.Value) bool {
+func storageMentions(c *ssa.Call, ev ssa.Value) bool {
 	for _, a := range c.Common().Args {
 		if resolve(nil, a) == ev {
 			return true
